@@ -618,9 +618,20 @@ class _Int:
         sel, fs = loc.get("sel"), loc.get("final_select")
         if sel is None or fs is None:
             return
+        nd = loc.get("nd")
         SAN.counts["I12"] += 1
         a = [c.name for c in sel.selected_columns]
-        b = [c.name for c in fs]
+        try:
+            from pydiverse.transform._internal.pipe.cache import Cache
+
+            SAN.suspend += 1
+            try:
+                cache = Cache.from_ast(nd)
+            finally:
+                SAN.suspend -= 1
+            b = [cache.uuid_to_name[c._uuid] for c in fs]
+        except Exception:
+            return
         if a != b:
             SAN.report("I12", "SqlImpl.export", f"selected_columns {a} paired positionally with metadata {b}")
 
